@@ -102,4 +102,16 @@ PROPS = {
         "assumptions": ["the binary64 value of each documented decimal bound is supplied by the harness (Rust's parse of the same text)",
                         "diagnostics are compared as multisets of (level, short description); long descriptions are not compared"],
     },
+    "C17": {
+        "translators": ["t2a"],
+        "profiles": ["release", "checked"],
+        "exhaustive": True,
+        "count": {"quick": 1, "thorough": 1},
+        "rule": "exhaustive: Symmetry::from_index for 0..=231; for each of the 230 groups the Hermann-Mauguin and Hall symbols, Z and the operator list "
+                "(rotation entries, translations in twelfths) compared with the regenerated tables, transformations_absolute against the scaled fractional "
+                "operators, Symmetry::new on three spellings (exact, padded with blanks, tab) of both symbols, the CRYST1 round trip (save_pdb_raw, read "
+                "back) and the mmCIF round trip (save_mmcif_raw, read back); five unknown symbols.  Run in the release profile and in a profile with "
+                "overflow checks (the crate's dev profile).  non-trivial: every case; distinct = distinct case line",
+        "assumptions": ["translations are accepted as multiples of 1/12 when within 12*2^-50 of one (the table stores 1/3, 1/6 as rounded doubles)"],
+    },
 }
